@@ -494,9 +494,12 @@ def lwOk (valOf : Int × Nat → Option Nat) (v : CV) : Prop :=
   ∃ r, v = .lw r ∧ 0 ≤ r.timestamp ∧ r.value = valOf (r.timestamp, r.nodeID)
     ∧ (r.value = none → r.timestamp = 0 ∧ r.nodeID = 0 ∧ r.dirty = false)
 
-/-- `Set(v, ts, node)` with a non-negative timestamp, `v` being THE value written under that stamp -/
-def lwMut (valOf : Int × Nat → Option Nat) (f : CV → CV) (_ : CV) : Prop :=
-  ∃ v ts n, f = lwSet v ts n ∧ 0 ≤ ts ∧ valOf (ts, n) = some v
+/-- `Set(v, ts, node)` with a non-negative timestamp, `v` being THE value written under that stamp;
+    the stamp is not the one the register already holds (that case is re-stamped by Set itself, see
+    fixes/C38-lww-unique-stamps and `C38.LWW_join`) -/
+def lwMut (valOf : Int × Nat → Option Nat) (f : CV → CV) (s : CV) : Prop :=
+  ∃ v ts n, f = lwSet v ts n ∧ 0 ≤ ts ∧ valOf (ts, n) = some v ∧
+    ∀ r, s = .lw r → ¬ (ts = r.timestamp ∧ n = r.nodeID)
 
 theorem lw_laws (valOf : Int × Nat → Option Nat) (h0 : valOf (0, 0) = none) :
     Laws cvOps (wire idSer) (.lw .new) (lwSemi valOf h0) lwCore (lwOk valOf) (lwMut valOf) where
@@ -529,19 +532,23 @@ theorem lw_laws (valOf : Int × Nat → Option Nat) (h0 : valOf (0, 0) = none) :
       subst hw
       exact ⟨⟨_, rfl, h1, h2, by simp⟩, rfl⟩
   upd_none := by
-    rintro f s ⟨v, ts, n, rfl, hts, hval⟩ ⟨r, rfl, h1, h2, h3⟩ hnone
+    rintro f s ⟨v, ts, n, rfl, hts, hval, hfresh⟩ ⟨r, rfl, h1, h2, h3⟩ hnone
     obtain ⟨vr, tr, nr, dr⟩ := r
     simp only at h1 h2 h3
+    have htie : ¬ (ts = tr ∧ n = nr) := hfresh _ rfl
+    have htie' : ¬ (ts = tr ∧ n = nr ∧ ts < 9223372036854775807) := fun h => htie ⟨h.1, h.2.1⟩
     by_cases hst : ts < tr ∨ (ts = tr ∧ n < nr)
     · have hfs : lwSet v ts n (.lw ⟨vr, tr, nr, dr⟩) = .lw ⟨vr, tr, nr, dr⟩ := by
         simp [lwSet, LWWRegister.set, hst]
       rw [hfs]
       exact ⟨⟨_, rfl, h1, h2, fun h => by obtain ⟨x, y, _⟩ := h3 h; exact ⟨x, y, rfl⟩⟩, rfl⟩
-    · simp [cvOps, lwSet, LWWRegister.set, hst, CV.delta?, LWWRegister.delta?] at hnone
+    · simp [cvOps, lwSet, LWWRegister.set, hst, htie', CV.delta?, LWWRegister.delta?] at hnone
   upd_some := by
-    rintro f s d ⟨v, ts, n, rfl, hts, hval⟩ ⟨r, rfl, h1, h2, h3⟩ hsome
+    rintro f s d ⟨v, ts, n, rfl, hts, hval, hfresh⟩ ⟨r, rfl, h1, h2, h3⟩ hsome
     obtain ⟨vr, tr, nr, dr⟩ := r
     simp only at h1 h2 h3
+    have htie : ¬ (ts = tr ∧ n = nr) := hfresh _ rfl
+    have htie' : ¬ (ts = tr ∧ n = nr ∧ ts < 9223372036854775807) := fun h => htie ⟨h.1, h.2.1⟩
     by_cases hst : ts < tr ∨ (ts = tr ∧ n < nr)
     · -- stale write: the register is returned unchanged; it is re-shipped only if it was dirty
       have hfs : lwSet v ts n (.lw ⟨vr, tr, nr, dr⟩) = .lw ⟨vr, tr, nr, dr⟩ := by
@@ -559,7 +566,7 @@ theorem lw_laws (valOf : Int × Nat → Option Nat) (h0 : valOf (0, 0) = none) :
           show (some x, tr, nr) = lwJoin (some x, tr, nr) (some x, tr, nr)
           simp [lwJoin, lwWins]
     · have hfs : lwSet v ts n (.lw ⟨vr, tr, nr, dr⟩) = .lw ⟨some v, ts, n, true⟩ := by
-        simp [lwSet, LWWRegister.set, hst]
+        simp [lwSet, LWWRegister.set, hst, htie']
       rw [hfs] at hsome ⊢
       simp [cvOps, CV.delta?, LWWRegister.delta?] at hsome
       subst hsome
@@ -573,8 +580,7 @@ theorem lw_laws (valOf : Int × Nat → Option Nat) (h0 : valOf (0, 0) = none) :
         by_cases hn : n > nr
         · simp [hn]
         · have hne : n = nr := by omega
-          subst hne
-          simp [h2, hval]
+          exact absurd ⟨rfl, hne⟩ htie
 
 /-- LWW register: for all histories of writes with non-negative timestamps in which a stamp names
     one write, all delivery orders / duplications / losses and any full-state merges, replicas that
